@@ -101,7 +101,7 @@ PROPS = {
                 pending=['host mutation of earlier results between calls (the trees are immutable values in the model, so it cannot alter them; the implementation side is covered by the session_cache slice and the c17 monitor)']),
     'C18': dict(obligations=lambda: P('SqProps.C18') + TIE_LEX + TIE_TOK,
                 slices=['names', 'session_cache', 'name_lookup'], monitors=['c18'],
-                pending=['machine-level closure: every lookupName call of a whole run asks for a name Mentions-ed by the tree or by an ast_names tree (one-step lemmas proved)']),
+                pending=['lookupOf classifies the lookup sites of the machine by inspection of Sq/Machine.lean (enter .name, doCall, resume shortK are the only callers of lookupName); the whole-run theorem evaluation_looks_up_only_listed_names is proved']),
     'C19': dict(obligations=lambda: P('SqProps.C19'),
                 slices=['rand'], monitors=['c19'],
                 pending=[]),
